@@ -62,3 +62,21 @@ func VerifRuleCount(filename string) (map[string]int, error) {
 // VerifVersion is the Version string the hook puts into the conf it passes to ruleTable.Update
 // (reload histories use several).
 var VerifVersion = "verif"
+
+// LoadRuleFile / LoadIPFile run the module's real reload entry points.
+func (v *VerifModule) LoadRuleFile(path string) error {
+	return v.m.loadProductRuleConf(map[string][]string{"path": {path}})
+}
+
+func (v *VerifModule) LoadIPFile(path string) error {
+	return v.m.loadGlobalIPTable(map[string][]string{"path": {path}})
+}
+
+// RunAccept / RunRequest run the handlers with whatever tables are installed.
+func (v *VerifModule) RunAccept(session *bfe_basic.Session) int {
+	return v.m.globalBlockHandler(session)
+}
+
+func (v *VerifModule) RunRequest(req *bfe_basic.Request) (int, *bfe_http.Response) {
+	return v.m.productBlockHandler(req)
+}
